@@ -60,6 +60,11 @@ type Scenario struct {
 	MaxSize   int                       `json:"max_payload"`
 	Yields    map[string]core.YieldSpec `json:"yields,omitempty"`
 	ClockOffS int                       `json:"clock_off_s"`
+	// HasBack / BackAt (source stream): the stream's description also holds a back channel at this
+	// position; the readers do not ask for back channels, so they neither see it nor may ever be
+	// connected to it.
+	HasBack bool `json:"has_back,omitempty"`
+	BackAt  int  `json:"back_at,omitempty"`
 }
 
 func reliable(tr string) bool { return tr != "udp" && tr != "mcast" }
@@ -114,6 +119,10 @@ func gen(seed uint64, tier string) Scenario {
 			allPlain = false
 		}
 		sc.Readers = append(sc.Readers, rd)
+	}
+	if x := core.HS(seed, "c01.back", "", 0); sc.Source == "stream" && x%100 < 12 {
+		sc.HasBack = true
+		sc.BackAt = int((x >> 8) % uint64(len(sc.Formats)+1))
 	}
 	// one reader may use UDP-multicast (hash-derived so that no other choice of the scenario moves)
 	if x := core.HS(seed, "c01.mcast", "", 0); x%100 < 15 {
@@ -354,7 +363,7 @@ func run(t *testing.T, sc Scenario) *core.Result {
 	var summary map[string]any
 	res := sys.Run(t, opts, func(w *sys.World) {
 		w.ProbeInit("queue_full_reported", "reader_paused", "reader_left_early", "seq_wrapped", "udp_reader", "publisher_source",
-			"secure", "tunnel_http", "tunnel_ws", "late_join", "stall_applied", "multicast_reader", "multicast_packets_delivered", "packets_delivered", "srtp_wrap_between_setup_and_play_waived", "reader_timed_out", "reader_api_error_publisher_gone")
+			"secure", "tunnel_http", "tunnel_ws", "late_join", "stall_applied", "back_channel_in_stream", "multicast_reader", "multicast_packets_delivered", "packets_delivered", "srtp_wrap_between_setup_and_play_waived", "reader_timed_out", "reader_api_error_publisher_gone")
 		srvNode := w.Net.Node("srv", "10.0.0.1")
 		h := sys.NewHandler(w)
 		srv := &gortsplib.Server{
@@ -383,6 +392,13 @@ func run(t *testing.T, sc Scenario) *core.Result {
 		var streamReady = make(chan struct{})
 		var stream *gortsplib.ServerStream
 		desc := buildDesc(sc.Formats)
+		plainMedias := append([]*description.Media(nil), desc.Medias...) // what a reader without back channels is offered
+		if sc.HasBack && sc.Source == "stream" {
+			a := &format.G711{PayloadTyp: 8, MULaw: false, SampleRate: 8000, ChannelCount: 1}
+			back := &description.Media{Type: description.MediaTypeAudio, IsBackChannel: true, Formats: []format.Format{a}}
+			desc.Medias = append(desc.Medias[:sc.BackAt:sc.BackAt], append([]*description.Media{back}, desc.Medias[sc.BackAt:]...)...)
+			w.Probe("back_channel_in_stream")
+		}
 		writerQueueFull := false // reported to the writer (publisher client side)
 
 		// fwd: what the server-side stream was given (== written when source is "stream")
@@ -479,7 +495,7 @@ func run(t *testing.T, sc Scenario) *core.Result {
 					for fi := 0; fi < nf; fi++ {
 						var pt uint8
 						if sc.Source == "stream" {
-							pt = desc.Medias[mi].Formats[fi].PayloadType()
+							pt = plainMedias[mi].Formats[fi].PayloadType()
 						} else {
 							pt = pubMedias[mi].Formats[fi].PayloadType()
 						}
@@ -494,7 +510,7 @@ func run(t *testing.T, sc Scenario) *core.Result {
 						wmu.Unlock()
 						rec.callG = w.Log.NextG()
 						if sc.Source == "stream" {
-							rec.err = stream.WritePacketRTP(desc.Medias[mi], pkt)
+							rec.err = stream.WritePacketRTP(plainMedias[mi], pkt)
 						} else {
 							rec.err = pub.WritePacketRTP(pubMedias[mi], pkt)
 							if rec.err != nil && strings.Contains(rec.err.Error(), "queue is full") {
